@@ -88,6 +88,19 @@ class Run:
 
     def assume(s, *ids):
         s.assumed.update(ids)
+        if "A-NP" in ids and not getattr(s, "_conformance_done", False):
+            # model-conformance pass (DESIGN 4.3): the NumPy models are compared with the installed NumPy on every run; a disagreement is a
+            # checker fault (exit 3), never a violation
+            s._conformance_done = True
+            from . import conformance
+            t = time.time()
+            try:
+                ok, n, detail = conformance.check(NATIVE_PY)
+            except Exception as ex:  # noqa
+                ok, n, detail = False, 0, f"conformance pass crashed: {type(ex).__name__}: {ex}"
+            s.extra_cov["numpy_model_conformance"] = {"cases": n, "agree": ok, "detail": detail, "seconds": round(time.time() - t, 2)}
+            if not ok:
+                s.conformance_fault = detail
 
     # ------------------------------------------------------------ bounded stand-ins (level B, never counted as proved)
     def bounded(s, name, module, func, calls, bound, first_failure=True):
@@ -228,6 +241,9 @@ class Run:
             solve.shutdown()
 
     def _finish(s):
+        if getattr(s, "conformance_fault", None):
+            print(f"CHECKER-FAULT property={s.pid} NumPy model conformance failed (assumption A-NP does not hold of the installed NumPy): {s.conformance_fault[:600]}")
+            return 3
         if not s.obls:
             print(f"CHECKER-FAULT property={s.pid} zero obligations generated")
             return 3
